@@ -35,16 +35,16 @@ func mpScr(prefixes ...string) (o []string) {
 // mpbgv
 
 type mpbgvEnv struct {
-	ps, po       pset
-	pIn, pOut    bgv.Parameters
-	same         bool
-	n            int
-	sksIn, sksO  []*rlwe.SecretKey
-	skIn, skO    *rlwe.SecretKey
-	vals         []uint64
-	ct           *rlwe.Ciphertext
-	noise        ring.DiscreteGaussian
-	encIn, encO  *bgv.Encoder
+	ps, po      pset
+	pIn, pOut   bgv.Parameters
+	same        bool
+	n           int
+	sksIn, sksO []*rlwe.SecretKey
+	skIn, skO   *rlwe.SecretKey
+	vals        []uint64
+	ct          *rlwe.Ciphertext
+	noise       ring.DiscreteGaussian
+	encIn, encO *bgv.Encoder
 }
 
 func newMPBGVEnv(ps pset, po *pset, parties int) (*mpbgvEnv, error) {
@@ -78,7 +78,8 @@ func newMPBGVEnv(ps pset, po *pset, parties int) (*mpbgvEnv, error) {
 	return e, nil
 }
 
-func (e *mpbgvEnv) decode(p bgv.Parameters, ecd *bgv.Encoder, sk *rlwe.SecretKey, ct *rlwe.Ciphertext, want []uint64) string {
+func (e *mpbgvEnv) decode(p bgv.Parameters, _ *bgv.Encoder, sk *rlwe.SecretKey, ct *rlwe.Ciphertext, want []uint64) string {
+	ecd := bgv.NewEncoder(p) // private: the workload runs from several goroutines
 	pt := rlwe.NewDecryptor(p, sk).DecryptNew(ct)
 	got := make([]uint64, len(want))
 	if err := ecd.Decode(pt, got); err != nil {
@@ -141,12 +142,12 @@ func (e *mpbgvEnv) transformWork(mt mpbgv.MaskedTransformProtocol, withFunc bool
 		t := e.pIn.PlaintextModulus()
 		tr = &mpbgv.MaskedTransformFunc{Decode: true, Encode: true, Func: func(v []uint64) {
 			for i := range v {
-				v[i] = (v[i]*3 + 1) % t
+				v[i] = (v[i] * 3) % t // Z_t-linear, as the protocol requires
 			}
 		}}
 		want = make([]uint64, len(e.vals))
 		for i, v := range e.vals {
-			want[i] = (v*3 + 1) % t
+			want[i] = (v * 3) % t
 		}
 	}
 	lin, lout := e.pIn.MaxLevel(), e.pOut.MaxLevel()
@@ -297,7 +298,7 @@ type mpckksEnv struct {
 }
 
 func newMPCKKSEnv(ps pset, po *pset, parties int) (*mpckksEnv, error) {
-	e := &mpckksEnv{ps: ps, po: ps, n: parties, same: po == nil, noise: ring.DiscreteGaussian{Sigma: 1 << 10, Bound: 6 * (1 << 10)}, prec: 128}
+	e := &mpckksEnv{ps: ps, po: ps, n: parties, same: po == nil, noise: ring.DiscreteGaussian{Sigma: 1 << 10, Bound: 6 * (1 << 10)}, prec: 256}
 	var err error
 	mkp := func(s pset) (ckks.Parameters, error) {
 		return ckks.NewParametersFromLiteral(ckks.ParametersLiteral{LogN: s.LogN, Q: s.Q, P: s.P, LogDefaultScale: s.LogScale, RingType: s.ringType()})
@@ -460,7 +461,9 @@ func (e *mpckksEnv) subjects() (subs []*subject) {
 		s.Safe, s.Random, s.Cfg = true, true, tag+s.Cfg
 		subs = append(subs, s)
 	}
-	ckEnc := func(p string) []string { return []string{p + ".buff", p + ".buffCmplx", p + ".bigintCoeffs", p + ".qHalf"} }
+	ckEnc := func(p string) []string {
+		return []string{p + ".buff", p + ".buffCmplx", p + ".bigintCoeffs", p + ".qHalf"}
+	}
 	mltScr := append(append(mpScr("*.e2s.KeySwitchProtocol", "*.s2e.KeySwitchProtocol"), ckEnc("*.encoder*")...),
 		"*.e2s.maskBigint", "*.e2s.buff", "*.s2e.tmp", "*.s2e.ssBigint", "*.mask")
 	var rfScr []string
